@@ -56,6 +56,18 @@ CLAIMED = {
              "schedules sampled",
         category="fault_enumeration",
         design="5/C09"),
+    "C06": dict(
+        technique="implementation-shaped TLA+ model Transactions (callers, counter, response queues, dispatcher threads, peer) "
+                  "checked by TLC over all interleavings + real caller threads under a deterministic scheduler (PCT, line-level "
+                  "preemption) with the driver as peer; event traces validated by TLC against the monitor TxMon",
+        text="TLC explores every interleaving of 3 callers, the peer (replies in any order/never, unsolicited primaries), the "
+             "dispatcher and a reconnect in the code-shaped model (the original non-atomic counter and per-connection dispatcher "
+             "are kept as regression witnesses TLC must refute). Real HsmsProtocol: 2-4 caller threads, replies permuted/late/"
+             "missing, unsolicited primaries, reconnects, counter wrap-around, under PCT/random/fifo schedules with line-level "
+             "preemption in the counter/queue/dispatcher code; every event trace is folded through TxMon by TLC.",
+        note="schedules of the real code are sampled (PCT depth 3), not exhausted; messages still queued for dispatch when the "
+             "link drops are treated as in flight at link loss",
+        design="5/C06"),
 }
 
 NOT_YET = "check not built yet in this round (specification and harness in progress; see DESIGN.md section 9)"
